@@ -97,7 +97,7 @@ def err_sinks(fn):
 
 
 def reachable_without(fn, sinks, removed_edges, start=0):
-    r = fn.reachable(start, removed_edges=removed_edges)
+    r = fn.reachable_ds(start, removed_edges=removed_edges)
     return [s for s in sinks if s in r]
 
 
@@ -142,7 +142,7 @@ def guard(cx, rule, inst, fn, P, sinks, match, want_truth, what, require_fail_bl
         return False
     if require_fail_blocks_sink:
         for (a, b2) in failing:
-            r = fn.reachable(b2, removed_edges=passed, removed_blocks=set(fail_must_pass or ()))
+            r = fn.reachable_ds(b2, removed_edges=passed, removed_blocks=set(fail_must_pass or ()))
             bad = [s for s in sinks if s in r]
             if bad:
                 cx.violate(rule, inst, '%s: failing edge bb%d->bb%d of %s still reaches success exit bb%d' % (what, a, b2, fn.short, bad[0]),
